@@ -61,11 +61,65 @@ def parse_real(txt):
     return S, L, A
 
 
+def project_dist(m):
+    """distributed loads of the object in m.loads order: kind, parameter id, object tag, all_wires"""
+    ids = {}
+    toks = [len(m.geo)] + [w.tag for w in m.geo]
+    dl = []
+    for l in m.loads:
+        n = type(l).__name__
+        if n == 'Skin_Effect_Load':
+            kind = 'res' if l.resistivity is not None else 'cond'
+            par = '%g' % (l.resistivity if l.resistivity is not None else l.conductivity)
+        elif n == 'Insulation_Load':
+            kind, par = 'coat', '%g,%g' % (l.radius, l.epsilon_r)
+        else:
+            continue
+        dl.append((kind, ids.setdefault(par, len(ids) + 1), l.geobj.tag, 1 if l.all_wires else 0, par))
+    toks.append(len(dl))
+    for k, p, t, a, _ in dl:
+        toks += [k, p, t, a]
+    return toks, {v: k for k, v in ids.items()}
+
+
+def parse_real_dist(txt):
+    out = []
+    for line in txt.split('\n'):
+        for opt, kind, npar in (('--skin-effect-conductivity=', 'cond', 1), ('--skin-effect-resistivity=', 'res', 1),
+                                ('--insulation-load=', 'coat', 2)):
+            if line.startswith(opt):
+                v = line[len(opt):].split(',')
+                out.append((kind, ','.join(v[:npar]), 'all' if len(v) == npar else v[npar]))
+    return out
+
+
+def compare_dist(d, m):
+    toks, names = project_dist(m)
+    ans = d.ask('cmd dist', *toks)
+    mm = re.match(r'^(\d) D\[(.*)\]$', ans)
+    if not mm:
+        return 'driver: ' + ans[:80]
+    if mm.group(1) != '1':
+        return 'model reader does not recover the projected distributed loads'
+    mo = []
+    for x in mm.group(2).split(','):
+        if x:
+            k, p, t = x.split(':')
+            mo.append((k, names[int(p)], t))
+    real = parse_real_dist(m.as_cmdline())
+    if mo != real:
+        return 'distributed-load options: implementation %r, model %r' % (real, mo)
+    return None
+
+
 def compare(d, argv):
     r = run_main(argv, want_mininec=True)
     m = r['m']
     if m is None:
         return None
+    why = compare_dist(d, m)
+    if why:
+        return why
     toks, lumps = project(m)
     ans = d.ask('cmd write', *toks)
     mm = re.match(r'^(\d) (\d) S\[(.*)\] L\[(.*)\]$', ans)
